@@ -4,6 +4,8 @@
 package gpu_sharing
 
 import (
+	"math"
+
 	"k8s.io/apimachinery/pkg/util/uuid"
 
 	"github.com/NVIDIA/KAI-scheduler/pkg/scheduler/api/node_info"
@@ -44,9 +46,11 @@ func GetNodePreferableGpuForSharing(fittingGPUsOnNode []string, node *node_info.
 	}
 
 	deviceCounts := pod.ResReq.GetNumOfGpuDevices()
+	newGpuGroups := 0
 	for _, gpuIdx := range fittingGPUsOnNode {
 		if gpuIdx == pod_info.WholeGpuIndicator {
-			if wholeGpuForSharing := findGpuForSharingOnNode(pod, node, isPipelineOnly); wholeGpuForSharing != nil {
+			if wholeGpuForSharing := findGpuForSharingOnNode(pod, node, isPipelineOnly, newGpuGroups); wholeGpuForSharing != nil {
+				newGpuGroups++
 				nodeGpusSharing.IsReleasing =
 					nodeGpusSharing.IsReleasing || wholeGpuForSharing.IsReleasing
 				nodeGpusSharing.Groups = append(nodeGpusSharing.Groups, wholeGpuForSharing.Groups...)
@@ -67,10 +71,14 @@ func GetNodePreferableGpuForSharing(fittingGPUsOnNode []string, node *node_info.
 	return nil
 }
 
-func findGpuForSharingOnNode(task *pod_info.PodInfo, node *node_info.NodeInfo, isPipelineOnly bool) *nodeGpuForSharing {
+func findGpuForSharingOnNode(task *pod_info.PodInfo, node *node_info.NodeInfo, isPipelineOnly bool,
+	newGpuGroupsOfTask int) *nodeGpuForSharing {
 	isReleasing := true
 	if !isPipelineOnly {
-		if taskAllocatable := node.IsTaskAllocatable(task); taskAllocatable {
+		// A new gpu group needs an idle whole GPU of its own. IsTaskAllocatable alone does not tell: for a fraction
+		// task it also counts the shared GPUs that have room, which are not the GPU chosen here.
+		idleWholeGpus := int(math.Floor(node.Idle.GPUs()))
+		if taskAllocatable := node.IsTaskAllocatable(task); taskAllocatable && idleWholeGpus > newGpuGroupsOfTask {
 			isReleasing = false
 		}
 	}
